@@ -147,6 +147,32 @@ class exit_duration:
         return len([s for s in self.duration_subtokens if s.category != TokenCategory.DURATION]) == 0
 
 
+
+@contract(L + 'exitDuration', props=['C01', 'C03'], name='exit_duration_any_dots')
+class exit_duration_any_dots:
+    """The same statement for ANY number of augmentation dots (the dots are a sequence of unknown length): figure, then exactly one '.'
+    per dot, then the grace / appoggiatura mark; all of category DURATION."""
+    assumes = (A_SHAPES,)
+
+    def inputs(g):
+        tail = g.choice('tail', [None, 'q', 'qq', 'p', 'P'])
+        dots = g.seq('dots', lambda e: Text('.'))
+        ctx = DurationCtx(Text(g.str_sym('figure', ['4', '16', '3%2', '0'])), dots,
+                          None if tail is None or tail[0] != 'q' else Text(tail), None if tail is None or tail[0] == 'q' else Text(tail))
+        return {'self': mk_listener(g, []), 'ctx': ctx}
+
+    def modifies_objs(self):
+        return [self]
+
+    def post_marks_in_order(self, ctx):
+        got = [s.encoding for s in self.duration_subtokens]
+        want = [ctx.modern.text] + ['.' for d in ctx.dots] + ([] if ctx.grace is None else [ctx.grace.text]) + ([] if ctx.app is None else [ctx.app.text])
+        return got == want
+
+    def post_all_duration(self):
+        return len([s for s in self.duration_subtokens if s.category != TokenCategory.DURATION]) == 0
+
+
 class NoteCtx:
     """note / rest / chord context: its text and, for a note, the optional alteration"""
     def __init__(self, text, alteration):
